@@ -120,7 +120,7 @@ array_t* get_dir (char *path, int flags) {
 
   struct stat st;
   char *endtemp;
-  char temppath[MAX_FNAME_SIZE + MAX_PATH_LEN + 2];
+  char temppath[MAX_FNAME_SIZE + MAX_PATH_LEN + 2 + MAX_FNAME_SIZE + 2];	/* directory + '/' + entry name, see below */
   char regexppath[MAX_FNAME_SIZE + MAX_PATH_LEN + 2];
   char *p;
 
